@@ -8,6 +8,7 @@ import IdpyVerif.Driver.ClientAuthn
 import IdpyVerif.Driver.Jar
 import IdpyVerif.Driver.Registration
 import IdpyVerif.Driver.Subject
+import IdpyVerif.Driver.Claims
 open Idpy
 
 structure DState where
@@ -20,6 +21,7 @@ structure DState where
 def dispatch (st : DState) (fields : List String) : DState × String :=
   match fields with
   | "lv" :: args => (st, (Driver.C14.codec args).getD "bad-op")
+  | "claims" :: args => (st, (Driver.Claims.handle args).getD "bad-op")
   | "sub" :: args => (st, (Driver.Subject.handle args).getD "bad-op")
   | "pkce" :: args => (st, (Driver.Pkce.handle args).getD "bad-op")
   | "redir" :: args => (st, (Driver.Redirect.handle args).getD "bad-op")
